@@ -696,7 +696,7 @@ func c10Meek(c *harness.Ctx) {
 	srv := &meekServer{c: c, sessions: map[string]int{}, ending: &ending, faulty: true}
 	srv.downTotal = 1 << 40
 	srv.respPlan = func() int { return []int{0, 1, 1000, 65536}[t.Draw("resp", 4)] }
-	op := []string{"status-500", "status-mixed", "drop-conn", "garbage-response", "truncated-response", "slow-response"}[t.Draw("op", 6)]
+	op := []string{"status-500", "status-mixed", "drop-conn", "garbage-response", "truncated-response", "slow-response", "stall-then-cut-with-full-queue"}[t.Draw("op", 7)]
 	c.Info["op"] = op
 	c.Feature("meek-" + op)
 	if op == "status-500" {
@@ -717,6 +717,29 @@ func c10Meek(c *harness.Ctx) {
 			l.BA.AddFault(simnet.Fault{Kind: simnet.FaultCutEOF, Offset: int64(50 + t.Draw("truncat", 3000))})
 		case "slow-response":
 			l.BA.AddFault(simnet.Fault{Kind: simnet.FaultStall, Offset: int64(t.Draw("stallat", 200)), Dur: []time.Duration{time.Second, time.Minute, 1000 * time.Hour}[t.Draw("stalld", 3)]})
+		}
+		if op == "stall-then-cut-with-full-queue" {
+			// the bridge swallows the request and never answers; later the
+			// connection is cut while the application's writes have piled up
+			cutAfter := time.Duration(1+t.Draw("cutafter", 20)) * time.Second
+			how := t.Draw("cuthow", 2)
+			c.S.Go(name+"/blackhole", func() {
+				buf := make([]byte, 4096)
+				c.S.Go(name+"/cutter", func() {
+					c.S.Sleep(cutAfter)
+					if how == 0 {
+						l.B.Close()
+					} else {
+						l.BA.AddFault(simnet.Fault{Kind: simnet.FaultCutRST, Offset: l.BA.Written})
+					}
+				})
+				for {
+					if _, err := l.B.Read(buf); err != nil {
+						return
+					}
+				}
+			})
+			return l.A, nil
 		}
 		if op == "garbage-response" {
 			c.S.Go(name+"/garbage", func() {
@@ -756,13 +779,19 @@ func c10Meek(c *harness.Ctx) {
 				}
 			}
 		})
-		for i, n := 0, 1+t.Draw("nw", 4); i < n; i++ {
-			_, err := conn.Write(make([]byte, 1+t.Draw("wsz", 70000)))
+		nw, maxw := 1+t.Draw("nw", 4), 70000
+		if op == "stall-then-cut-with-full-queue" {
+			nw, maxw = 17+t.Draw("nwfull", 8), 10 // more writes than the queue has room for
+		}
+		for i, n := 0, nw; i < n; i++ {
+			_, err := conn.Write(make([]byte, 1+t.Draw("wsz", maxw)))
 			c.S.Sleep(0)
 			if err != nil {
 				break
 			}
-			c.S.Sleep(time.Duration(t.Draw("wpause", 2000)) * time.Millisecond)
+			if op != "stall-then-cut-with-full-queue" {
+				c.S.Sleep(time.Duration(t.Draw("wpause", 2000)) * time.Millisecond)
+			}
 		}
 		wrDone = true
 		c.S.Sleep(time.Duration(t.Draw("closeafter", 400)) * time.Second)
